@@ -12,7 +12,7 @@ BOUNDS = {
     'quick': 'call graph outer -> mid -> leaf plus an independent sibling, each of outer/mid/leaf a subbuild or a '
              'build_file (all 8 combinations); one function gets arbitrary (old, new) versions from '
              '{absent, None, bool, int, float, str, [int, {k: int}], (int, {k: int}), {7: int}, {"7": int}, {a:int, b:int} in either key order} with symbolic '
-             'leaves, the others keep one version; second family: all three vary over {absent, int, float}',
+             'leaves, the others keep one version; the same with an unchanged build in between (three builds, 4 shapes); second family: all three vary over {absent, int, float}',
     'thorough': 'plus diamond graph (two callers of one leaf function name with different arguments) and three-build histories',
 }
 ASSUMPTIONS = [
@@ -27,6 +27,8 @@ SHAPES = ['absent', 'none', 'bool', 'int', 'float', 'str', 'nested', 'dict-ab', 
 
 def families(tier):
     f = [{'name': 'one-changes', 'params': {}, 'weight': 3}, {'name': 'all-vary', 'params': {}, 'weight': 1},
+         # build, unchanged build (everything reused), then a build in which one version changes / disappears / stays
+         {'name': 'one-changes', 'params': {'builds': 3, 'repeat_first': True, 'shapes': ['absent', 'none', 'int', 'str']}, 'weight': 2},
          {'name': 'all-vary', 'params': {'leaf_may_raise': True}, 'weight': 2}]
     if tier == 'thorough':
         f += [{'name': 'one-changes', 'params': {'builds': 3}, 'weight': 3}, {'name': 'diamond', 'params': {}, 'weight': 2}]
@@ -103,9 +105,14 @@ def harness(eng, fam, P):
         else:
             c = eng.choose('changing', 3)
             base = {n: version(eng, n + 'base', ['absent', 'int', 'nested']) for n in NAMES}
+            shapes = P.get('shapes', SHAPES)
             for b in range(nbuilds):
                 m = dict(base)
-                m[NAMES[c]] = version(eng, '%s%d' % (NAMES[c], b), SHAPES)
+                if P.get('repeat_first') and b == 1:
+                    # an unchanged build in between: everything is reused, the version map is the same object-wise
+                    m[NAMES[c]] = vers[0][NAMES[c]]
+                else:
+                    m[NAMES[c]] = version(eng, '%s%d' % (NAMES[c], b), shapes)
                 vers.append(m)
         # behaviour per build: a symbolic return value; JSON-equal versions => same behaviour
         behs = []
